@@ -110,6 +110,11 @@ class Result:
         os.replace(tmp, path)
         for k, detail in self.known:
             print("KNOWN-FINDING: property=%s %s" % (self.prop, k.get("what", k.get("key"))))
+        rdir = os.path.join(root, "replays")
+        if os.path.isdir(rdir):
+            for fn in os.listdir(rdir):
+                if fn.startswith("%s_%s_" % (self.prop, self.tier)):
+                    os.remove(os.path.join(rdir, fn))
         if self.violations:
             os.makedirs(os.path.join(root, "replays"), exist_ok=True)
             seen = set()
@@ -479,7 +484,7 @@ GENERIC = {
     "C03": dict(
         rule="definitions with 2-7 rule sets (empty sets, shuffled declaration order, shared prefixes, self-switches, switch-and-return, switches in fallible rules); oracle: reference lexer; a divergence is attributed to C03 when the observed action belongs to a rule set other than the reference's active one. Non-trivial = distinct (definition, input) pairs whose reference run enters two or more rule sets.",
         nt="nt_C03",
-        parts=[("rulesets", "base", 320, 4800, 20, SMALL, BIG)],
+        parts=[("rulesets", "base", 240, 3600, 20, SMALL, BIG), ("recover", "base", 120, 1600, 20, SMALL, BIG)],
     ),
     "C04": dict(
         rule="rules with right contexts of every operator shape (multi-character literals, sets, repetition, nullable, `$`, class differences, built-ins) at every priority position, mixed with context-free rules. Non-trivial = distinct (definition, input) pairs in which at least one context evaluation failed and at least one succeeded.",
@@ -515,7 +520,7 @@ GENERIC = {
     "C10": dict(
         rule="definitions with every assignment of action kinds (skip, simple, return, continue with/without reset, switch, switch-and-return, fallible ok/err) under guards on peek/length/counter; oracle: reference lexer on the full action log (match_loc, match_, peek, counter, match after reset) and items; metamorphic: sugar forms vs their documented desugaring. Non-trivial = distinct (definition, input) pairs whose action history has length >= 3 and >= 2 different kinds.",
         nt="nt_C10",
-        parts=[("actions", "desugar", 320, 4800, 20, SMALL, BIG)],
+        parts=[("actions", "desugar", 200, 3200, 20, SMALL, BIG), ("accum", "desugar", 160, 2400, 20, SMALL, BIG)],
     ),
     "C14": dict(
         rule="every execution is repeated with new, new_from_iter(Chars), new_from_iter_with_state(Chars), and both iterator constructors over a counting iterator (different Clone implementation); all item streams and action logs (minus match_ text) must equal those of new_with_state. Non-trivial = distinct (definition, input) pairs with a rewind (iterator re-seated) or a context evaluation.",
